@@ -8,6 +8,7 @@ Every item reads /repo sources with `ast`.  Two idioms:
 """
 import ast
 import re
+from pathlib import Path
 
 from translator.lib import (Unsupported, coq_str_list, coq_string, const_value, defn, find_assign, find_class, find_func,
                             parse, str_elems)
@@ -54,6 +55,7 @@ FINGERPRINTS = [
     (CORE, ["lint_files_parallel", "_collect_cross_file_evidence", "_execute_parallel_linting", "lint_directory_parallel", "_path_inside_project"]),
     ("src/cli/utils.py", ["_infer_root_from_config", "_determine_project_root_for_context", "get_project_root_from_context"]),
     (L + "dry/inline_ignore.py", ["InlineIgnoreParser"]),
+    (L + "collection_pipeline/linter.py", ["check", "_is_file_ignored", "_matches_pattern", "_load_config", "_should_analyze"]),
     (L + "dry/violation_generator.py", ["_filter_inline_ignored"]),
 ]
 
@@ -423,6 +425,21 @@ def command_sigs():
     if fh_default is None or ast.unparse(find_func(c, "from_dict")).count("ignore=config_dict.get('ignore', defaults.ignore)") != 2:
         raise Unsupported("file-header: default ignore list / from_dict fallback not found")
     out.append(_sig("file-header", "IFileHeader", True, fh_default, cwd=False))
+    # pipeline (collection-pipeline): the Path.match-or-substring idiom on the path as given, rule-level ignore parser without a root
+    rel, cls = L + "collection_pipeline/linter.py", "CollectionPipelineRule"
+    ik = _match_or_substr(rel, cls)
+    chk_body = _body(_fn(rel, cls, "check"))
+    if "config = self._load_config(context)\nif not config.enabled:\n    return []\nif self._is_file_ignored(context, config):\n    return []" not in chk_body:
+        raise Unsupported("pipeline: check() no longer applies the ignore list before analysing")
+    lc = _body(_fn(rel, cls, "_load_config"))
+    if "linter_config = config_dict.get('collection_pipeline', config_dict.get('collection-pipeline', config_dict))" not in lc:
+        raise Unsupported("pipeline: section lookup changed")
+    if "ignore=config.get('ignore', [])" not in _body(_fn(L + "collection_pipeline/config.py", "CollectionPipelineConfig", "from_dict")):
+        raise Unsupported("pipeline: ignore list is no longer read from config.get('ignore', [])")
+    src = ast.unparse(find_class(parse(rel), cls))
+    if "is_test_file" in src or "_is_test_file" in src:
+        raise Unsupported("pipeline: a test-file exemption appeared")
+    out.append(_sig("pipeline", ik, True, [], cwd=_uses_cwd_parser(rel, cls)))
     global _XF_CONSTS
     _XF_CONSTS = (defn("merged_default_commands", "list string", coq_str_list(["stringly-typed"]))
                   + defn("xfile_commands", "list (string * bool)", '[("dry", false); ("stringly-typed", true)]'))
@@ -500,17 +517,44 @@ ITEMS = [
 
 
 # ---------------------------------------------------------------- used by the harness (name pools follow the source tables)
+_TABLES_CACHE: dict = {}
+
+
 def tables_for_harness() -> dict:
+    if not _TABLES_CACHE:
+        _TABLES_CACHE.update(_tables_for_harness())
+    return dict(_TABLES_CACHE)
+
+
+def _tables_for_harness() -> dict:
     m = parse(CORE)
     out = {"excluded_dirs": sorted(str_elems(find_assign(m, "_HARDCODED_EXCLUDE_DIRS")))}
+    # a changed source shape must not shrink the name pools: fall back to the last recorded generated layer
+    snap = Path(__file__).resolve().parent.parent / "coq" / "Gen.expected" / "PathLocGen.v.txt"
+    snap_text = snap.read_text() if snap.exists() else ""
+
+    def _snap_list(pattern: str) -> list[str]:
+        mm = re.search(pattern, snap_text)
+        return re.findall(r'"((?:[^"]|"")*)"', mm.group(1)) if mm else []
     try:
         out["ts_markers"] = _ts_markers(L + "magic_numbers/linter.py", "MagicNumberRule")
     except Unsupported:
-        out["ts_markers"] = []
+        out["ts_markers"] = _snap_list(r'Build_cmdsig "magic-numbers" \w+ \w+ \[[^\]]*\] \(Build_tspec [^)]*\) \(Build_tspec (\[[^\]]*\])')
     try:
         out["rust_default_ignore"] = _rust_default("unwrap_abuse", "UnwrapAbuseConfig")
     except Unsupported:
-        out["rust_default_ignore"] = []
+        out["rust_default_ignore"] = _snap_list(r'Build_cmdsig "unwrap-abuse" \w+ \w+ (\[[^\]]*\])')
+    # directory names that occur as literal components of any default ignore pattern of any command (`**/migrations/**`, `tests/`):
+    # a parent directory / project directory of that name is where a path-as-given decision goes wrong
+    try:
+        sigs_text = command_sigs()
+    except (Unsupported, SyntaxError, ValueError, AttributeError):
+        sigs_text = snap_text
+    names = []
+    for lit in re.findall(r'"((?:[^"]|"")*)"', sigs_text):
+        if "/" in lit:
+            names += [c for c in lit.split("/") if c and not any(ch in c for ch in "*?[.") and c not in names]
+    out["default_ignore_dir_names"] = names
     try:
         mm = _shape_re(PR, None, "_find_root_with_pyprojroot", r".*for criterion in (\[.*\]):\n    root = .*")
         lst = ast.parse(mm.group(1), mode="eval").body
